@@ -255,3 +255,11 @@ def rule_inventory(ctx):
 
 
 RULES.append(("C19.e", "state-mutation inventory: no new site that changes the content of the state this property rests on", rule_inventory))
+
+
+def rule_mustpass(ctx):
+    from . import mustpass
+    mustpass.check(ctx, ['receiver-drop-closes', 'receiver-drop-notifies', 'mt-drop-joins', 'mt-drop-aborts'])
+
+
+RULES.append(("C19.f", "must-pass-through: no path around the effects this property rests on (added fast paths / early returns)", rule_mustpass))
